@@ -77,8 +77,13 @@ func (w *World) createPool(ctx sdk.Context, creator sdk.AccAddress, oracle bool,
 func itoa(u uint64) string { return math.NewIntFromUint64(u).String() }
 
 // SeedStandard builds the standard world; it must be called right after NewWorld.
-func (w *World) SeedStandard() *Std {
-	std := &Std{Prices: map[string]math.LegacyDec{"USDC": D("1"), "ATOM": D("5"), "ELYS": D("3")},
+func (w *World) SeedStandard() *Std { return w.SeedStandardAt(D("5")) }
+
+// SeedStandardAt: the same world with another ATOM price (pool compositions follow the price, so every pool starts
+// balanced by value). A price below 1 makes one base unit of uatom worth less than one of uusdc: conversions of dust
+// then truncate to zero.
+func (w *World) SeedStandardAt(atomPrice math.LegacyDec) *Std {
+	std := &Std{Prices: map[string]math.LegacyDec{"USDC": D("1"), "ATOM": atomPrice, "ELYS": D("3")},
 		Display: map[string]string{"uusdc": "USDC", "uatom": "ATOM", "uelys": "ELYS"}}
 	app := w.App
 	for _, m := range []string{"commitment", "amm", "masterchef", "stablestake", "leveragelp", "perpetual", "tradeshield",
@@ -134,10 +139,11 @@ func (w *World) SeedStandard() *Std {
 
 		creator := w.Accts[0].Addr
 		m := func(x int64) math.Int { return math.NewInt(x) }
-		std.Pools = append(std.Pools, w.createPool(ctx, creator, false, D("0.003"), "uatom", m(500_000_000_000), m(100_000_000_000), 10, 10))
+		atomFor := func(usdc int64) math.Int { return math.LegacyNewDec(usdc).Quo(atomPrice).TruncateInt() }
+		std.Pools = append(std.Pools, w.createPool(ctx, creator, false, D("0.003"), "uatom", m(500_000_000_000), atomFor(500_000_000_000), 10, 10))
 		std.Pools = append(std.Pools, w.createPool(ctx, creator, false, D("0.002"), "uelys", m(60_000_000_000), m(80_000_000_000), 20, 80))
-		std.Pools = append(std.Pools, w.createPool(ctx, creator, true, D("0.001"), "uatom", m(1_000_000_000_000), m(200_000_000_000), 10, 10))
-		std.Pools = append(std.Pools, w.createPool(ctx, creator, true, D("0.0"), "uatom", m(300_000_000_000), m(60_000_000_000), 10, 10))
+		std.Pools = append(std.Pools, w.createPool(ctx, creator, true, D("0.001"), "uatom", m(1_000_000_000_000), atomFor(1_000_000_000_000), 10, 10))
+		std.Pools = append(std.Pools, w.createPool(ctx, creator, true, D("0.0"), "uatom", m(300_000_000_000), atomFor(300_000_000_000), 10, 10))
 		// stablestake liquidity (through the real message server so every hook fires)
 		ss := sskeeper.NewMsgServerImpl(*app.StablestakeKeeper)
 		for _, a := range w.Accts[:2] {
